@@ -18,6 +18,11 @@ Theorem C06_served : forall t0 h t, hist_ok t0 h -> In (t, ReqMulti) h ->
   exists s, In s (multi_times (run_sends false t0 h)) /\ t <= s <= t + 3 * sec.
 Proof. exact run_served. Qed.
 
+(* and nothing else: every all-nodes RA after the initial one answers some trigger of the last 3 s *)
+Theorem C06_justified : forall t0 h s, hist_ok t0 h -> In s (multi_times (run_sends false t0 h)) ->
+  s = t0 \/ exists t, In (t, ReqMulti) h /\ t <= s <= t + 3 * sec.
+Proof. exact run_justified. Qed.
+
 (* unicast solicitations never influence the multicast schedule: the scheduler state is untouched *)
 Theorem C06_unicast_neutral : forall last t dst r, fst (sched_step last t (ReqUni dst r)) = last.
 Proof. reflexivity. Qed.
@@ -31,4 +36,5 @@ Proof. split; [cbn; unfold sec, ms; repeat split; lia || exact I|vm_compute; ref
 
 Print Assumptions C06_spacing.
 Print Assumptions C06_served.
+Print Assumptions C06_justified.
 Print Assumptions C06_unicast_neutral.
